@@ -18,15 +18,99 @@ def proj(r):
             "diags": [[d[0], "", d[2], [[h[0], h[1], None, None] for h in d[3]]] for d in r["diags"]]}
 
 
+PRINTED = ["int\tg_a = 0189;\n", "x = 0b12013;\n", "char\tg_c = 'ab;\nint y;\n", "char\t*g_s = \"ab\\\ncd", "\ts = \"abc;\n", "a = '\\q';\n",
+           "\t\tk = 08 + 0b2 + 1e+ + 1.2.3 + 'xy' + 10uu;\n", "/* never closed\n\tline", "\t@ $ `\n", "x = \"\\x\" + '\\777';\n"]
+
+
+def printed_positions(res, rng, big):
+    """the position PRINTED for a lexical diagnostic (humanized and JSON formats) is the position of
+    its first highlight, i.e. the one the `lex` correspondence compares with the model"""
+    import re, json
+    from norminette.file import File
+    from norminette.lexer import Lexer
+    from norminette.errors import HumanizedErrorsFormatter, JSONErrorsFormatter
+    srcs = PRINTED + [s for s in L.sampled(rng, 4000 if big else 600, 8)]
+    n = 0
+    for src in srcs:
+        f = File("p.c", src)
+        try:
+            list(Lexer(f))
+        except Exception:
+            continue
+        errs = list(f.errors)
+        if not errs:
+            continue
+        n += 1
+        res.count("printed", 1)
+        if any(len(e.highlights) > 1 for e in errs):
+            res.nontriv(("printed", src))
+        want = [(e.name, e.highlights[0].lineno, e.highlights[0].column) for e in errs]
+        text = str(HumanizedErrorsFormatter([f], use_colors=False))
+        got = [(m.group(1), int(m.group(2)), int(m.group(3))) for m in re.finditer(r"^(?:Error|Notice): (\S+)\s+\(line:\s*(\d+), col:\s*(\d+)\)", text, re.M)]
+        js = json.loads(str(JSONErrorsFormatter([f])))
+        gotj = [(e["name"], e["highlights"][0]["lineno"], e["highlights"][0]["column"]) for e in js["files"][0]["errors"]]
+        if got != want or gotj != want:
+            res.report("printed-position", f"{src!r}: printed {got} / json {gotj}, first highlights {want}",
+                       {"kind": "printed", "src": src})
+    return n
+
+
+MOVERS = ["/*\n** " + "x" * 90 + "\n*/ int\ta ;\n", "int\tg_a; /* " + "y" * 80 + " */ \n", "/* " + "z" * 90 + " */\n"]
+
+
+def tokens_not_moved(res, rng, big):
+    """a rule may only READ token positions: a diagnostic attached later to a token that some rule
+    moved would be printed at a position that is not the token's (observed through the whole pipeline)"""
+    import families
+    from trace import run_traced
+    files = [("mv%d.c" % i, s) for i, s in enumerate(MOVERS)]
+    progs = families.programs(rng, 12 if big else 3, comments=True)
+    files += [(p.name, t) for p, op, site, t, line in families.violating(rng, progs, per_prog=3)]
+    files += families.repo_samples() if big else families.repo_samples()[::6]
+    for name, src in files:
+        tr = run_traced(name, src)
+        res.count("moved", 1)
+        for rule, old, new in tr.get("moved", []):
+            res.report(f"diag:position@token-moved-by-{rule}", f"{name}: {rule} moved a token from {tuple(old)} to {tuple(new)}",
+                       {"kind": "moved", "name": name, "src": src})
+
+
 def run(res, tier, br, model_ok=True, search=False):
+    import random
     dis = lexcommon.run_lex(res, tier, want=("C09",), model_ok=model_ok, proj=proj)
     lexcommon.handle_disagreements(res, dis, ("C09",), proj, "token types and positions")
+    printed_positions(res, random.Random(res.seed + 5), tier == "thorough" or search)
+    tokens_not_moved(res, random.Random(res.seed + 6), tier == "thorough" or search)
+
+
+def reproduce(res, k):
+    if k.get("input") is None:
+        return
+    from trace import run_traced
+    tr = run_traced("mv.c", k["input"])
+    for rule, old, new in tr.get("moved", []):
+        res.report(f"diag:position@token-moved-by-{rule}", "recorded input of a listed finding", {"kind": "moved", "name": "mv.c", "src": k["input"]})
 
 
 def replay(rp):
     from impl import lex_impl
     import oracle_lex as O
     src = rp.get("src")
+    if rp.get("kind") == "moved":
+        from trace import run_traced
+        tr = run_traced(rp["name"], src)
+        print("source:", repr(src[:200])); print("token positions overwritten by rules:", tr.get("moved"))
+        return 1 if tr.get("moved") else 0
+    if rp.get("kind") == "printed":
+        import core
+        global PRINTED
+        PRINTED = [src]
+        r = core.Result("C09", "replay", 0)
+        import random
+        printed_positions(r, random.Random(0), False)
+        bad = [v for v in r.violations if v[0] == "printed-position" and v[2].get("src") == src]
+        print("source:", repr(src)); print("problems:", [v[1][:300] for v in bad])
+        return 1 if bad else 0
     if src is None:
         print("replay names a broken obligation/correspondence, no input:", rp.get("broken"))
         return 1
